@@ -27,7 +27,7 @@ func meetAV(a, b AV) AV {
 		}
 	}
 	n, _ := normalize(ps)
-	r := AV{P: n, Taint: a.Taint || b.Taint, SanLo: a.SanLo || b.SanLo, SanHi: a.SanHi || b.SanHi, Bits: a.Bits & b.Bits, ZeroDef: a.ZeroDef && b.ZeroDef, Raw: a.Raw || b.Raw, Blowup: a.Blowup && b.Blowup}
+	r := AV{P: n, Taint: a.Taint || b.Taint, SanLo: a.SanLo || b.SanLo, SanHi: a.SanHi || b.SanHi, Bits: a.Bits & b.Bits, ZeroDef: a.ZeroDef && b.ZeroDef, Raw: a.Raw || b.Raw, Blowup: a.Blowup && b.Blowup, Trip: a.Trip || b.Trip}
 	r.Exact = (samePieces(n, a.P) && a.Exact) || (samePieces(n, b.P) && b.Exact)
 	return r
 }
